@@ -532,6 +532,33 @@ def runColumnsShared {α : Type} (o : Oracle) (cfg : Cfg) (corpora : List (Corpu
         | .error err => .error err
         | .ok outs => .ok ((out, stopped) :: outs)
 
+/-- the allocations of the leaf task with identity `t` (`Alloc.Sub.id`) among the allocations of a column -/
+def entriesOfTask (t : Nat) (es : List Alloc.Entry) : List Alloc.Entry :=
+  es.filter fun en => match en with
+    | .task sub _ _ _ => sub.id == t
+    | _ => false
+
+/-- `AsyncIoAdapter.run`: the dict of parameter sources is keyed by the TASK (`if task not in params_per_task`), not by
+    the operation the task references: two tasks of one column that are built from the same named bulk operation (the
+    usual way a track reuses an operation) get one source each.  So what task `t` does in the columns of a worker is
+    `runColumns` on ITS allocations only — the other tasks of the column, same operation or not, do not exist for it.
+    `cols` = per column: all allocations of the column (any tasks) and, per task id, the order of `params()` calls. -/
+def runTaskColumns {α : Type} (o : Oracle) (cfg : Cfg) (corpora : List (Corpus α)) (t : Nat)
+    (cols : List (List Alloc.Entry × (Nat → List Nat))) : Except Err (List (List (Nat × Bulk α) × List Nat)) :=
+  runColumns o cfg corpora (cols.map fun col => (entriesOfTask t col.1, col.2 t))
+
+/-- NOT the code — sources keyed by the operation: all tasks of a column that reference the operation share one live
+    source (every allocation is registered on it; `calls` name the callers by global client index).  Only used to show
+    that the key matters (`shared_operation_source_splits_corpus`). -/
+def runColumnByOperation {α : Type} (o : Oracle) (cfg : Cfg) (corpora : List (Corpus α)) (entries : List Alloc.Entry)
+    (calls : List Nat) : Except Err (List (Nat × Bulk α) × List Nat) :=
+  match partitionEntries entries (PState.init : PState α) with
+  | .error err => .error err
+  | .ok p0 =>
+    match runCalls o cfg corpora calls p0 [] with
+    | .error err => .error err
+    | .ok (out, stopped, _) => .ok (out, stopped)
+
 /-! ## 6. byte layer: offset table, skip_lines, mmap readline -/
 
 abbrev Byte := Nat
